@@ -273,6 +273,7 @@ pub struct Info {
     pub txs_in_block: usize,
     pub nontrivial: Vec<String>,
     pub unasserted_accepted: usize,
+    pub side_branch_states: usize,
     pub state_wrap: bool,
 }
 
@@ -402,6 +403,108 @@ fn judge_edits(b: &Block, edits: &[IdEdit], state: &str, make_replica: &dyn Fn()
     }
 }
 
+fn judge_side_branch(b: &Block, edits: &[IdEdit], main: &[Block], ncfg: NodeCfg, info: &mut Info, v: &mut Vec<(String, String)>) {
+    // builders: one holds the chain up to B's parent (builds the competing block S), one holds B too
+    // (builds B's honest child C)
+    let mut upto_parent = Deliverer::new(Node::new(ncfg, 6), 10_000);
+    for blk in &main[..main.len() - 1] {
+        upto_parent.deliver(blk);
+    }
+    if upto_parent.dead || upto_parent.node.tip().1 != b.previous_block_hash {
+        return;
+    }
+    let parent_ts = match upto_parent.node.chain.get_latest_block() {
+        Some(p) => p.timestamp,
+        None => return,
+    };
+    let sc = key(4);
+    let s_ts = parent_ts + 2 * ncfg.heartbeat + 4_321;
+    let gt = if crate::props::c01::density_needs_gt(&upto_parent.node) { block_on(upto_parent.node.mine_gt(b.previous_block_hash, &sc, 8_801)) } else { None };
+    let txs = if gt.is_none() { vec![carrier_tx(&sc, s_ts)] } else { vec![] };
+    let sib = match block_on(upto_parent.node.make_block_as(&sc, b.previous_block_hash, s_ts, txs, gt)) {
+        Ok(x) => x,
+        Err(_) => return,
+    };
+    if sib.hash == b.hash {
+        return;
+    }
+    let mut with_b = Deliverer::new(Node::new(ncfg, 6), 10_000);
+    for blk in main {
+        with_b.deliver(blk);
+    }
+    if with_b.dead || with_b.node.tip().1 != b.hash {
+        return;
+    }
+    let c_ts = b.timestamp + 2 * ncfg.heartbeat + 4_567;
+    let gt = if crate::props::c01::density_needs_gt(&with_b.node) { block_on(with_b.node.mine_gt(b.hash, &sc, 8_802)) } else { None };
+    let txs = if gt.is_none() { vec![carrier_tx(&sc, c_ts)] } else { vec![] };
+    let child = match block_on(with_b.node.make_block_as(&sc, b.hash, c_ts, txs, gt)) {
+        Ok(x) => x,
+        Err(_) => return,
+    };
+    let replica = || {
+        let mut d = Deliverer::new(Node::new(ncfg, 6), 10_000);
+        for blk in &main[..main.len() - 1] {
+            d.deliver(blk);
+        }
+        let (out, _) = guarded_add(&mut d.node, sib.clone(), 64);
+        if d.dead || !matches!(out, StepOutcome::Result("added_lc")) {
+            None
+        } else {
+            Some(d)
+        }
+    };
+    // non-vacuity: with the unedited B the branch [B, C] must win
+    {
+        let mut d = match replica() {
+            Some(d) => d,
+            None => return,
+        };
+        let (ib, _, _) = match apply(b, &IdEdit::Identity) {
+            Some(x) => x,
+            None => return,
+        };
+        let _ = guarded_add(&mut d.node, ib, 64);
+        let _ = guarded_add(&mut d.node, child.clone(), 64);
+        if d.node.tip().1 != child.hash {
+            return; // the honest branch does not win in this state (burn fee, tickets): state not usable
+        }
+        info.side_branch_states += 1;
+    }
+    for e in edits {
+        let (eb, _resigned, asserted) = match apply(b, e) {
+            Some(x) => x,
+            None => continue,
+        };
+        if eb.hash != b.hash || crate::props::c09::block_eq(&eb, b) || !asserted {
+            continue; // another hash: the child does not connect to it; no-op edits; unasserted fields
+        }
+        let mut d = match replica() {
+            Some(d) => d,
+            None => return,
+        };
+        info.evaluated += 1;
+        let name = edit_name(e);
+        info.nontrivial.push(format!("{name}|state=side_branch_then_child"));
+        let (o1, _) = guarded_add(&mut d.node, eb.clone(), 64);
+        let (o2, _) = guarded_add(&mut d.node, child.clone(), 64);
+        for o in [&o1, &o2] {
+            if let StepOutcome::Panicked(site, msg) = o {
+                v.push((format!("C06|edit={}|panic={}|state=side_branch_then_child", name, site), format!("add_block panicked at {} ({}) with the edited block on a side branch (edit {:?})", site, msg, e)));
+            }
+        }
+        if d.node.tip().1 == child.hash {
+            let same_txs = eb.transactions.len() == b.transactions.len() && eb.transactions.iter().zip(&b.transactions).all(|(x, y)| tx_eq(x, y));
+            let key = if same_txs { format!("C06|edited_block_accepted|edit={}|state=side_branch_then_child", name) } else { format!("C06|same_hash_different_txs|edit={}|state=side_branch_then_child", name) };
+            v.push((
+                key,
+                format!("the edited block (edit {:?}, hash {} as signed) arrived on a side branch, was stored, and was wound onto the longest chain when its honest child arrived: tip {}", e, hx(&b.hash), hx(&child.hash)),
+            ));
+            return;
+        }
+    }
+}
+
 pub fn run_case(case: &Case) -> (Vec<(String, String)>, Info) {
     let mut info = Info::default();
     let mut v = vec![];
@@ -449,6 +552,15 @@ pub fn run_case(case: &Case) -> (Vec<(String, String)>, Info) {
             return (v, info);
         }
     }
+    // (4) the edited block arrives on a side branch: the replica's tip is an honest competing block at
+    // B's height, the edited B is stored off-chain (equal length), then an honest child of B makes
+    // that branch the longer one and the reorganisation winds the edited B
+    if main.len() >= 2 {
+        judge_side_branch(&b, &case.edits, &main, ncfg, &mut info, &mut v);
+        if !v.is_empty() {
+            return (v, info);
+        }
+    }
     // (3) the genesis block offered to an empty node
     {
         let g = main[0].clone();
@@ -473,6 +585,9 @@ fn eval(c: &mut Ctx, case: &Case, counting: bool) -> Vec<(String, String)> {
         }
         if info.state_wrap {
             c.class("state=after_window_wrap");
+        }
+        if info.side_branch_states > 0 {
+            c.class("state=side_branch_then_child(usable)");
         }
         if info.txs_in_block >= 3 {
             c.sample_class("b", json!({"txs_in_block": info.txs_in_block, "edits": case.edits, "hist_blocks": case.hist.blocks.len(), "gp": case.hist.ncfg.gp}));
